@@ -34,6 +34,8 @@ RAC = {
     'mask_merge': dict(crate=CORE, attach=S + 'mask/mod.rs', file='mask.rs', test='rac_mask_merge', function='Mask::merge_whitespace_sep'),
     'prose_offsets': dict(crate='harper-comments', attach='harper-comments/src/comment_parser.rs', file='prose_offsets.rs', test='rac_prose_offsets', function='CommentParser::parse (tree-sitter mask + comment parsers) and Markdown::parse: prose words at their true offsets'),
     'lhs_prose_offsets': dict(crate='harper-literate-haskell', attach='harper-literate-haskell/src/lib.rs', file='lhs.rs', test='rac_lhs_prose_offsets', function='LiterateHaskellParser (masker + parsers::Mask::parse + Markdown): prose words at their true offsets'),
+    'html_prose_offsets': dict(crate='harper-html', attach='harper-html/src/lib.rs', file='html.rs', test='rac_html_prose_offsets', function='HtmlParser (tree-sitter text nodes + parsers::Mask::parse): prose words at their true offsets'),
+    'typst_prose_offsets': dict(crate='harper-typst', attach='harper-typst/src/lib.rs', file='typst.rs', test='rac_typst_prose_offsets', function='Typst parser (typst_translator, offset_cursor): prose words at their true offsets'),
     'typst_frontend': dict(crate='harper-typst', attach='harper-typst/src/lib.rs', file='typst.rs', test='rac_typst_frontend', function='Typst parser (typst_translator, offset_cursor)'),
 }
 # Verus piece name -> runtime contract checks that exercise the same clause on the real code
